@@ -48,6 +48,10 @@ type c03PoolCase struct {
 	// 4 MiB chunk reads and row-data buffers share the chunk buffers' size class;
 	// the prelude can then fail a LATER chunk read ("chunkfail")
 	Big bool `json:"big,omitempty"`
+	// Mult: per-block row multiplier (absent = 1). With compression, a big
+	// block's COMPRESSED size can then fall into the size class of a small
+	// block's UNCOMPRESSED size, so buffers of different roles meet in one pool
+	Mult []int `json:"mult,omitempty"`
 }
 
 // genC03PoolBig: the multi-chunk filter region variant.
@@ -86,6 +90,13 @@ func genC03Pool() *rapid.Generator[c03PoolCase] {
 			c.Others = append(c.Others, unif(t, "other", c.Blocks))
 		}
 		c.Rounds = rapid.IntRange(1, 3).Draw(t, "rounds")
+		if c.Comp != "none" && chance(t, "uneven", 50) {
+			c.Rows = pick(t, "urows", []int{330, 400})
+			c.Blocks = 5
+			c.Mult = []int{1, 1, 1, pick(t, "multa", []int{4, 8}), pick(t, "multb", []int{16, 32})}
+			c.Q1Block = unif(t, "uq1", 3)
+			c.Prelude = append([]poolPre{{Op: "corrupt", Block: 3}}, c.Prelude...)
+		}
 		return c
 	})
 }
@@ -126,7 +137,11 @@ func runC03Pool(c c03PoolCase) *Violation {
 	var rows []map[string]any
 	for b := 0; b < c.Blocks; b++ {
 		want[b] = map[string]map[string]any{}
-		for i := 0; i < c.Rows; i++ {
+		nrows := c.Rows
+		if b < len(c.Mult) && c.Mult[b] > 1 {
+			nrows *= c.Mult[b]
+		}
+		for i := 0; i < nrows; i++ {
 			key := fmt.Sprintf("b%d-%05d", b, i)
 			row := map[string]any{"key": key, "b": fmt.Sprintf("blk%d", b), "v": fmt.Sprintf("block %d row %05d", b, i), "n": map[string]any{"i": i, "l": []any{b, "x"}}}
 			if c.Pad > 0 {
@@ -240,6 +255,51 @@ func runC03Pool(c c03PoolCase) *Violation {
 		}
 		return got
 	}
+	// uneven worlds: aim the failing prelude reads at a block whose COMPRESSED
+	// size shares a pool size class with the parked query's UNCOMPRESSED block,
+	// and run the overlapping queries over blocks of that same class
+	if len(c.Mult) > 0 {
+		classOf := func(n int) int {
+			cl := 0
+			for 1<<cl < n {
+				cl++
+			}
+			return cl
+		}
+		byPart := map[string]*BlockInfo{}
+		for _, b := range files[0].Blocks {
+			byPart[b.Meta.PartitionID] = b
+		}
+		q1 := byPart[fmt.Sprintf("blk%d", c.Q1Block)]
+		if q1 != nil {
+			want := classOf(q1.Meta.UncompressedSize)
+			donor := -1
+			var same []int
+			for b := 0; b < c.Blocks; b++ {
+				bi := byPart[fmt.Sprintf("blk%d", b)]
+				if bi == nil {
+					continue
+				}
+				if classOf(bi.Meta.RowDataSize) == want && donor < 0 {
+					donor = b
+				}
+				if b != c.Q1Block && classOf(bi.Meta.UncompressedSize) == want {
+					same = append(same, b)
+				}
+			}
+			if donor >= 0 && len(same) > 0 {
+				for i := range c.Prelude {
+					if c.Prelude[i].Op == "corrupt" || c.Prelude[i].Op == "readfail" {
+						c.Prelude[i].Block = donor
+					}
+				}
+				for i := range c.Others {
+					c.Others[i] = same[i%len(same)]
+				}
+				Ev.Class("pool:uneven-world-aimed(compressed class of the failing block == uncompressed class of the parked one)")
+			}
+		}
+	}
 	preKinds := map[string]bool{}
 	for _, p := range c.Prelude {
 		fmu.Lock()
@@ -341,7 +401,24 @@ func runC03Pool(c c03PoolCase) *Violation {
 	if len(classes) == 1 {
 		Ev.Class("pool:all-blocks-one-size-class")
 	}
-	if fired > 0 && len(classes) == 1 {
+	if len(c.Mult) > 0 {
+		// do a compressed size and an uncompressed size share a class?
+		cc := map[int]bool{}
+		for _, b := range files[0].Blocks {
+			cl := 0
+			for 1<<cl < b.Meta.RowDataSize {
+				cl++
+			}
+			cc[cl] = true
+		}
+		for cl := range classes {
+			if cc[cl] {
+				Ev.Class("pool:a-compressed-and-an-uncompressed-size-share-a-class")
+				break
+			}
+		}
+	}
+	if fired > 0 && (len(classes) == 1 || len(c.Mult) > 0) {
 		Ev.NonTrivial("pool|" + jsonKey(c))
 		if Ev.WantSample() {
 			Ev.Sample(map[string]any{"pool_case": c})
